@@ -149,7 +149,15 @@ def step (st : St) (ts : List String) : St × String :=
   | ["pokefix", a] => match nat? a with
     | some a => upd st fun r => r.mutate (.pokeFix a)
     | none => (st, "bad-op")
+  | ["replaceme", a, b] => match byte? a, byte? b with
+    | some a, some b => upd st fun r => r.mutate (.replaceMe a b)
+    | _, _ => (st, "bad-op")
   -- queries
+  | ["splitdic", h1, h2] => match unhex h1, unhex h2 with
+    | some s1, some s2 => qry st fun r => if s1.isEmpty then "err empty" else
+        let d := (splitDic r.view s1 s2).toArray.qsort (fun x y => x.1 < y.1) |>.toList
+        " ".intercalate (toString d.length :: d.map fun kv => hex kv.1 ++ ":" ++ hex kv.2)
+    | _, _ => (st, "bad-op")
   | ["indexof", h, a] => match unhex h, nat? a with
     | some p, some a => qry st fun r => showIdx (indexOf r.view p (a % (r.len + 1)))
     | _, _ => (st, "bad-op")
